@@ -371,6 +371,16 @@ func startPipeline(r *obsRun, kind, name string, n []int, f []float64, env [][]f
 	case "NET":
 		// the network whose machine model is lean/IndicatorVerif/Model/NetMachines.lean (diamondNet):
 		// W = Operate(Operate(a0, b), a1) with a0, a1 = Duplicate(a)
+		if name == "change" && len(env) == 2 && len(env[1]) == 2 {
+			// helper.Change(c, k) rebuilt from its helpers with a buffer of b instead of k (NetM.changeNet):
+			// Subtract(Skip(d1, k), Buffered(d0, b)), d0, d1 = Duplicate(c)
+			k, b := int(env[1][0]), int(env[1][1])
+			c := feed(r, env[0], capacity, pc, 0, 1)
+			d := helper.Duplicate[float64](c, 2)
+			w := helper.Subtract(helper.Skip(d[1], k), helper.Buffered(d[0], b))
+			r.drain(floatRecv(w), pc, 0, 1)
+			break
+		}
 		if name != "diamond" || len(env) != 2 {
 			return "ERR unknown-net"
 		}
